@@ -211,7 +211,9 @@ CHECKS["C11"] = dict(
           "solutions of K x = b superpose when K does not depend on the excitation; zero excitation is solved by the zero field; "
           "for symmetric K the reaction collected on terminal j in the field of a unit value on i equals the reaction on i in the "
           "field of j (capacitance / conductance / inductance matrices symmetric); the element source terms of the model tied to "
-          "the code are linear and the stiffness element is independent of the excitation; symmetry of storage comes from C09. "
+          "the code are linear and the stiffness element is independent of the excitation; the same statements are proved about the matrices "
+          "the solver models store (Sparse.get M, symmetric by construction: no symmetry hypothesis left), in particular about the "
+          "complex-symmetric systems of the time-harmonic formulations over the scalar Cx K (complex mutual couplings are symmetric). "
           "Decided on the REAL tools for every formulation, including those without an independent assembly oracle "
           "(axisymmetric magnetostatics, time-harmonic planar and axisymmetric): triples of runs (S1, S2, a*S1+b*S2) and a "
           "zero-excitation run on the identical mesh compared node by node, reciprocity pairs through the real "
